@@ -475,3 +475,233 @@ def _run(case, w):
 
 def classify(case, v):
     return v.kind
+
+
+# ==========================================================================
+# asyncio server: interleavings of concurrent terminating causes
+
+from .. import coop as _coop            # noqa: E402  (explore only)
+
+CAUSES = ['sdisc', 'cdisc', 'lose', 'odisc']
+EXHAUSTIVE = True
+EXHAUSTIVE_SCOPE = ('asyncio server: every release order of the gates (one '
+                    'at the disconnect handler, one at every transport send) '
+                    'for every ordered pair of terminating causes '
+                    '{server.disconnect, client DISCONNECT, transport loss, '
+                    'DISCONNECT of the other namespace}; triples are '
+                    'Hypothesis-sampled')
+_SCACHE = {}
+
+
+class _Sched:
+    """taken / branching record so that coop.explore can drive it."""
+
+    def __init__(self, choices):
+        self.choices = list(choices)
+        self.taken = []
+        self.branching = []
+        self.trace = []
+
+    def pick(self, n):
+        i = len(self.taken)
+        k = self.choices[i] % n if i < len(self.choices) else 0
+        self.taken.append(k)
+        self.branching.append(n)
+        return k
+
+
+def enumerate_sharded(tier, shard, nshards):
+    import itertools
+    cfgs = []
+    for pair in itertools.permutations(CAUSES, 2):
+        cfgs.append({'sched': True, 'causes': list(pair)})
+    cfgs.append({'sched': True, 'causes': ['sdisc', 'sdisc']})
+    cfgs.append({'sched': True, 'causes': ['cdisc', 'cdisc']})
+    for i, cfg in enumerate(cfgs):
+        if i % nshards != shard:
+            continue
+
+        def run_one(choices, cfg=cfg):
+            case = dict(cfg, choices=choices)
+            s, o = _sched_execute(case)
+            case['choices'] = list(s.taken)
+            try:
+                r = _sched_judge(case, s, o)
+            except Violation as v:
+                r = v
+            _SCACHE.clear()
+            _SCACHE[repr(case)] = r
+            run_one.case = case
+            return s
+        for s in _coop.explore(run_one, max_schedules=20000):
+            yield run_one.case
+
+
+def _sched_execute(case):
+    import asyncio
+    w = World(aio=True, namespaces=['/', '/x'])
+    sio = w.sio
+    loop = w.h.loop
+    s = _Sched(case['choices'])
+    gates = []
+    log = []
+
+    async def gate(label):
+        fut = loop.create_future()
+        gates.append((label, fut))
+        await fut
+
+    def mk_disc(ns):
+        async def h(sid, reason):
+            log.append((ns, sid, reason))
+            await gate('handler:' + ns)
+        return h
+    for ns in ('/', '/x'):
+        sio.on('connect', lambda sid, environ, auth=None: None, namespace=ns)
+        sio.on('disconnect', mk_disc(ns), namespace=ns)
+    t = w.open()
+    ci, _ = w.connect(t, '/')
+    co, _ = w.connect(t, '/x')
+    tb = w.open()
+    cb, _ = w.connect(tb, '/')
+    victim, other, by = w.clients[ci], w.clients[co], w.clients[cb]
+    w.recv_all()
+    real_send = sio.eio.send_packet
+
+    async def send_packet(sid, pkt):
+        await gate('send')
+        return await real_send(sid, pkt)
+    sio.eio.send_packet = send_packet
+    sock = w.h.eio.sockets[w.t[t]]
+    from engineio import packet as ep
+
+    def cause(name):
+        if name == 'sdisc':
+            return sio.disconnect(victim['sid'], namespace='/')
+        if name == 'cdisc':
+            return sock.receive(ep.Packet(ep.MESSAGE, '1'))
+        if name == 'odisc':
+            return sock.receive(ep.Packet(ep.MESSAGE, '1/x,'))
+        return sock.close(wait=False, abort=True,
+                          reason=w.h.reason.TRANSPORT_ERROR)
+    tasks = []
+    pending = list(case['causes'])
+    # the harness decides, at every idle point, between starting the next
+    # cause and releasing one of the parked gates
+    for _ in range(200):
+        loop.run_until_idle()
+        live = [(l, f) for l, f in gates if not f.done()]
+        opts = [('start', None)] if pending else []
+        opts += [('release', g) for g in live]
+        if not opts:
+            break
+        k = s.pick(len(opts))
+        what, g = opts[k]
+        if what == 'start':
+            name = pending.pop(0)
+            tasks.append((name, loop.spawn(cause(name))))
+            s.trace.append(('start', name))
+        else:
+            g[1].set_result(None)
+            s.trace.append(('release', g[0]))
+    loop.run_until_idle()
+    return s, {'w': w, 'log': log, 'tasks': tasks, 'victim': victim,
+               'other': other, 'by': by, 'gates': gates}
+
+
+def _sched_judge(case, s, o):
+    w, sio = o['w'], o['w'].sio
+    try:
+        victim, other, by = o['victim'], o['other'], o['by']
+        names = case['causes']
+        what = 'causes %r schedule %r' % (names, s.trace)
+        for name, t in o['tasks']:
+            if not t.done():
+                raise Violation('cause-never-finishes', '%s [%s]'
+                                % (name, what))
+            if t.exception() is not None:
+                raise Violation('cause-raised', '%s: %r [%s]'
+                                % (name, t.exception(), what))
+        if w.h.swallowed:
+            raise Violation('cause-raised', 'engine.io contained %r [%s]'
+                            % (w.h.swallowed[0], what))
+        kills = [n for n in names if n in ('sdisc', 'cdisc', 'lose')]
+        v_inv = [e for e in o['log'] if e[1] == victim['sid']]
+        if len(v_inv) != (1 if kills else 0):
+            raise Violation('disconnect-handler-%s' % (
+                'twice' if len(v_inv) > 1 else 'missing'), what)
+        R = w.h.reason
+        allowed = {'sdisc': R.SERVER_DISCONNECT, 'cdisc': R.CLIENT_DISCONNECT,
+                   'lose': R.TRANSPORT_ERROR}
+        if v_inv and v_inv[0][2] not in {allowed[n] for n in kills}:
+            raise Violation('disconnect-reason', '%r [%s]' % (v_inv, what))
+        m = sio.manager
+        if kills and (m.is_connected(victim['sid'], '/') or sio.rooms(
+                victim['sid']) or m.pending_disconnect):
+            raise Violation('victim-not-removed', what)
+        o_killed = 'lose' in names or 'odisc' in names
+        o_inv = [e for e in o['log'] if e[1] == other['sid']]
+        if len(o_inv) != (1 if o_killed else 0):
+            raise Violation('other-namespace-handler-count',
+                            '%d [%s]' % (len(o_inv), what))
+        if not o_killed and not m.is_connected(other['sid'], '/x'):
+            raise Violation('other-namespace-affected', what)
+        if not m.is_connected(by['sid'], '/'):
+            raise Violation('bystander-affected', what)
+        # nothing is delivered to the victim any more; the bystander and
+        # the surviving namespace still get their traffic
+        w.recv_all()
+        sio.eio.send_packet = sio.eio.__class__.send_packet.__get__(sio.eio)
+        w.do(sio.emit('after', 1, namespace='/'))
+        w.do(sio.emit('after', 1, namespace='/x'))
+        got = w.recv_all()
+        tv = victim['t']
+        on_v = [(p['nsp']) for p in got.get(tv, [])] if w.h.eio.sockets.get(
+            w.t[tv]) else []
+        want_v = [] if (kills and o_killed) else (
+            ['/x'] if kills else (['/'] if o_killed else ['/', '/x']))
+        if 'lose' in names:
+            want_v = []
+        if sorted(on_v) != sorted(want_v):
+            raise Violation('delivery-after-end', 'victim transport got %r, '
+                            'expected %r [%s]' % (on_v, want_v, what))
+        if [p['nsp'] for p in got.get(by['t'], [])] != ['/']:
+            raise Violation('bystander-delivery', what)
+        second_while_parked = False
+        started = 0
+        parked = 0
+        for ev in s.trace:
+            if ev[0] == 'start':
+                started += 1
+                if started >= 2 and parked > 0:
+                    second_while_parked = True
+            # a cause parks as soon as it has started and hit a gate
+            parked = max(parked, started - 0) if ev[0] == 'start' else parked
+        return {'sched': True, 'causes': '+'.join(names),
+                'nontrivial': len(s.trace) > len(names)}
+    finally:
+        w.close()
+
+
+_seq_strategy = strategy
+_seq_check = check_case
+
+
+def strategy(tier):         # noqa: F811
+    triple = st.fixed_dictionaries({
+        'sched': st.just(True),
+        'causes': st.lists(st.sampled_from(CAUSES), min_size=3, max_size=3),
+        'choices': st.lists(st.integers(0, 4), max_size=30)})
+    return st.one_of(_seq_strategy(tier), _seq_strategy(tier), triple)
+
+
+def check_case(case):       # noqa: F811
+    if not case.get('sched'):
+        return _seq_check(case)
+    r = _SCACHE.pop(repr(case), None)
+    if r is not None:
+        if isinstance(r, Violation):
+            raise r
+        return r
+    s, o = _sched_execute(case)
+    return _sched_judge(case, s, o)
